@@ -778,6 +778,14 @@ class NetworkGraph(AbstractBaseIR):
                         w_1d = weight.squeeze(axis=1)
                         args[w_str] = {'vtype': 'constant', 'value': w_1d, 'dtype': 'float', 'shape': w_1d.shape}
                         eqs.append(f"{t_str} = {w_str} * {s_str}")
+                    elif weight.shape[0] == 1:
+                        # A single-unit target population is a scalar at runtime.
+                        # np.dot((1,n), (n,)) returns (1,) which cannot be assigned
+                        # to the scalar slot of the state derivative vector; use a
+                        # 1-D weight vector so that the product reduces to a scalar.
+                        w_1d = weight.squeeze(axis=0)
+                        args[w_str] = {'vtype': 'constant', 'value': w_1d, 'dtype': 'float', 'shape': w_1d.shape}
+                        eqs.append(f"{t_str} = matvec({w_str}, {s_str})")
                     else:
                         eqs.append(f"{t_str} = matvec({w_str}, {s_str})")
                 else:
